@@ -61,16 +61,21 @@ def law_total(chk, lp, rule, file):
 def law_closer_optional(chk, lp, fr: Frames, rule, file):
     n = 0
     for d, kind in fr.delimited:
+        # escape characters: taken together with the character after them
+        escapes = {e for e in lp.reps if e != d
+                   and lp.run(d + e + lp.other + d) == [(kind, e + lp.other)]
+                   and lp.run(d + e + d + d) == [(kind, e + d)]}
         payloads = [""] + [c for c in lp.reps if c != d] + [
             a + b for a in lp.reps for b in lp.reps if d not in a + b]
         bad = None
         for s in payloads:
+            # a payload ending in an unpaired escape character swallows the
+            # delimiter after it; that case is the payload s + d
+            if s and s[-1] in escapes and (len(s) == 1
+                                           or s[-2] not in escapes):
+                s = s + d
             n += 1
             if lp.run(d + s) != lp.run(d + s + d):
-                # an escape before the delimiter keeps the literal open:
-                # then `d s d` is itself unterminated, compare with d s d d
-                if lp.run(d + s + d) == lp.run(d + s + d + d):
-                    continue
                 bad = s
                 break
         chk.ob(rule, f"{kind} literal {d!r}…{d!r}", bad is None,
